@@ -1,7 +1,10 @@
 use std::cell::RefCell;
 use std::collections::HashMap;
 use std::fmt::{Display, Formatter};
+#[cfg(not(tyme4rs_verif_loom))]
 use std::sync::{Arc, Mutex, MutexGuard};
+#[cfg(tyme4rs_verif_loom)]
+use loom::sync::{Arc, Mutex, MutexGuard};
 
 use lazy_static::lazy_static;
 
@@ -175,9 +178,45 @@ impl Eq for LunarYear {}
 
 pub static LUNAR_MONTH_NAMES: [&str; 12] = ["正月", "二月", "三月", "四月", "五月", "六月", "七月", "八月", "九月", "十月", "十一月", "十二月"];
 
+#[cfg(not(tyme4rs_verif_loom))]
 lazy_static! {
   /// 农历月缓存
   static ref LUNAR_MONTH_CACHE: Mutex<HashMap<String, Vec<f64>>> = Mutex::new(HashMap::new());
+}
+
+#[cfg(tyme4rs_verif_loom)]
+loom::lazy_static! {
+  /// 农历月缓存
+  static ref LUNAR_MONTH_CACHE: Mutex<HashMap<String, Vec<f64>>> = Mutex::new(HashMap::new());
+}
+
+/// verification hooks (only with `--cfg tyme4rs_verif`)
+#[cfg(tyme4rs_verif)]
+pub fn verif_reset() {
+  #[cfg(not(tyme4rs_verif_loom))]
+  {
+    LUNAR_MONTH_CACHE.clear_poison();
+    EIGHT_CHAR_PROVIDER.clear_poison();
+  }
+  match LUNAR_MONTH_CACHE.lock() {
+    Ok(mut g) => g.clear(),
+    Err(e) => e.into_inner().clear(),
+  }
+}
+
+#[cfg(tyme4rs_verif)]
+pub fn verif_cache_snapshot() -> Vec<(String, Vec<f64>)> {
+  let mut l: Vec<(String, Vec<f64>)> = match LUNAR_MONTH_CACHE.lock() {
+    Ok(g) => g.iter().map(|(k, v)| (k.clone(), v.clone())).collect(),
+    Err(e) => e.into_inner().iter().map(|(k, v)| (k.clone(), v.clone())).collect(),
+  };
+  l.sort_by(|a, b| a.0.cmp(&b.0));
+  l
+}
+
+#[cfg(all(tyme4rs_verif, not(tyme4rs_verif_loom)))]
+pub fn verif_poisoned() -> [bool; 2] {
+  [LUNAR_MONTH_CACHE.is_poisoned(), EIGHT_CHAR_PROVIDER.is_poisoned()]
 }
 
 /// 农历月
@@ -953,7 +992,13 @@ impl PartialEq for LunarDay {
 
 impl Eq for LunarDay {}
 
+#[cfg(not(tyme4rs_verif_loom))]
 lazy_static! {
+  static ref EIGHT_CHAR_PROVIDER: Arc<Mutex<Box<dyn EightCharProvider + Sync + Send + 'static>>> = Arc::new(Mutex::new(Box::new(DefaultEightCharProvider::new())));
+}
+
+#[cfg(tyme4rs_verif_loom)]
+loom::lazy_static! {
   static ref EIGHT_CHAR_PROVIDER: Arc<Mutex<Box<dyn EightCharProvider + Sync + Send + 'static>>> = Arc::new(Mutex::new(Box::new(DefaultEightCharProvider::new())));
 }
 
